@@ -87,6 +87,16 @@ class SimTimeModule:
         return SimTimeModule.monotonic()
 
     @staticmethod
+    def perf_counter_ns():
+        k = CUR
+        k.tick(US)
+        return k.now + k.mono_offset
+
+    @staticmethod
+    def monotonic_ns():
+        return SimTimeModule.perf_counter_ns()
+
+    @staticmethod
     def sleep(seconds):
         CUR.sleep(seconds)
 
@@ -295,6 +305,8 @@ class SimThread:
             raise RuntimeError("threads can only be started once")
         k.thread_seq = getattr(k, "thread_seq", 0) + 1
         self._task = k.spawn("thr%d" % k.thread_seq, lambda: self._target(*self._args, **self._kwargs), daemon_task=self.daemon)
+        self._task.label = self.name
+        self._task.daemon_task_ok = self.daemon
 
     def join(self, timeout=None):
         k = CUR
